@@ -523,6 +523,17 @@ def produced_nonempty(fa, key):
             nm = short(strip_generics((c.get("resolved") or c)["path"])) if c else "?"
             if nm == "split":
                 return True
+            if nm in ("box_assume_init_into_vec_unsafe", "into_vec") and d[2] == "call":
+                # `vec![a, ..]` with at least one element (an empty `vec![]` is Vec::new()), and
+                # the vector is never shortened afterwards
+                shrink = ("clear", "truncate", "pop", "remove", "swap_remove", "drain", "retain", "split_off",
+                          "take", "replace", "swap", "set_len", "dedup", "dedup_by_key", "resize")
+                for b2, t2 in fa.calls():
+                    c2 = callee_of(t2)
+                    n2 = short(strip_generics((c2.get("resolved") or c2)["path"])) if c2 else "?"
+                    if n2 in shrink and t2["args"] and coll_key(fa, t2["args"][0]) == key:
+                        return False
+                return len(fa.defs().get(key[1], [])) == 1
             if nm in ("collect", "into_iter") and d[3]["args"]:
                 pl = op_place(d[3]["args"][0])
                 d = fa.single_def(pl["l"]) if pl else None
@@ -758,6 +769,45 @@ def discharge(crate, E, site):
                         return "LEN-GUARD", "range %d.. under a dominating guard len >= %d" % (st, lbnd)
             if r[0] == "rv" and r[1]["k"] == "agg" and str(r[1].get("adt", "")).endswith("RangeFull"):
                 return "CONST", "full range"
+            return None
+        if nm in ("split_at", "split_at_mut") and len(t["args"]) == 2:
+            key = coll_key(fa, t["args"][0])
+            ci = const_eval(fa, t["args"][1])
+            if ci is not None and key is not None:
+                lbnd = lower_bound_on_len(fa, S, site.b, key)
+                if produced_nonempty(fa, key):
+                    lbnd = max(lbnd, 1)
+                if lbnd >= ci:
+                    return "LEN-GUARD", "split at the constant %d of a collection with len >= %d" % (ci, lbnd)
+            # `vec![x; (n + 1) * w].split_at_mut(w)`: the first row of a table of n + 1 rows
+            if key is not None and key[0] == "local":
+                d0 = fa.single_def(key[1])
+                c0 = callee_of(d0[3]) if d0 is not None and d0[2] == "call" else None
+                n0 = short(strip_generics((c0.get("resolved") or c0)["path"])) if c0 else "?"
+                if n0 == "from_elem" and len(d0[3]["args"]) == 2:
+                    def arith_root(op):
+                        r = root_of(fa, op)
+                        # `.0` of a checked operation is the operation
+                        if r[0] == "place" and len(r[1]["p"]) == 1 and isinstance(r[1]["p"][0], dict) and r[1]["p"][0].get("f") == 0:
+                            dd = fa.single_def(r[1]["l"])
+                            if dd is not None and dd[2] == "assign" and dd[3]["k"] == "binop" and dd[3]["op"].endswith("WithOverflow"):
+                                return ("rv", dd[3], dd[0])
+                        return r
+                    ln = arith_root(d0[3]["args"][1])
+                    if ln[0] == "rv" and ln[1]["k"] == "binop" and ln[1]["op"] in ("Mul", "MulWithOverflow"):
+                        mid = root_of(fa, t["args"][1])
+                        for f1, f2 in ((ln[1]["a"], ln[1]["b"]), (ln[1]["b"], ln[1]["a"])):
+                            r1, r2 = root_of(fa, f1), arith_root(f2)
+                            if r1 == mid and mid[0] in ("local", "place") and r2[0] == "rv" and r2[1]["k"] == "binop" and \
+                                    r2[1]["op"] in ("Add", "AddWithOverflow") and \
+                                    any((const_eval(fa, x) or 0) >= 1 for x in (r2[1]["a"], r2[1]["b"])):
+                                # ... and the width is not changed between the allocation and the split
+                                wl = mid[1] if mid[0] == "local" else None
+                                stable = wl is None or not any(
+                                    fa.dominates(d0[0], db) and fa.dominates(db, site.b)
+                                    for (db, di, dk, dp) in fa.defs().get(wl, []))
+                                if stable:
+                                    return "ROW-SPLIT", "the table has (n + 1) * w elements and is split at w"
             return None
         if nm in ("chunks", "chunks_mut", "chunks_exact"):
             c = const_eval(fa, t["args"][1])
